@@ -319,7 +319,17 @@ def run_flatten(sh, case, driver='flatten'):
             out_row.append(t)
         out_nested.append(out_row)
     arg = out_nested if two_d else out_nested[0]
-    lab_arg = labels if case.get('labels_as') == 'list' else np.array(labels)
+    la = case.get('labels_as')
+    if la == 'list':
+        lab_arg = labels
+    elif la == 'array_T' and two_d:
+        lab_arg = np.ascontiguousarray(np.array(labels).T).T          # same labels, a transposed (non C-contiguous) view
+        attach.count('C18:flatten_labels_as_transposed_view')
+    elif la == 'array_F' and two_d:
+        lab_arg = np.asfortranarray(np.array(labels))
+        attach.count('C18:flatten_labels_as_transposed_view')
+    else:
+        lab_arg = np.array(labels)
     name = case.get('column_name', 'Label')
     try:
         with quiet():
@@ -410,7 +420,7 @@ def run(sh):
             m = len(tabs) // 2
             tabs2 = [tabs[:m], tabs[m:2 * m]]
             labels = [['r0c%d' % j for j in range(m)], ['r1c%d' % j for j in range(m)]]
-            c3 = {'tables': tabs2, 'labels': labels, 'two_d': True, 'labels_as': str(rng.choice(['list', 'array']))}
+            c3 = {'tables': tabs2, 'labels': labels, 'two_d': True, 'labels_as': str(rng.choice(['list', 'array', 'array_T', 'array_F']))}
         else:
             labels = ['ep%d' % j for j in range(len(tabs))] if rng.random() < 0.6 else list(range(len(tabs)))
             c3 = {'tables': tabs, 'labels': labels, 'two_d': False, 'labels_as': str(rng.choice(['list', 'array'])),
